@@ -255,6 +255,44 @@ def run(ctx):
         pushes = [pos for pos, t in cf.iter_calls() if call_matches(t, r'Vec::<T, A>::push$') and (lambda rp: rp is not None and has_field(rp, 'AutosarModelRaw.files'))(E.recv_place(cf, t))]
         okcf = okcf and len(pushes) == 1
     C.check(okcf, 'C10-MUST-samemodel', 'create_file|root-gains-the-new-file', 'create_file does not add the newly created file (and only it) to the root element / model.files', '%s:%d' % (cf.file, cf.line))
+    # ---------------- MUST-localset: add_to_file_restricted extends an element's set if the parent is splittable OR the element already has its own set
+    C.rule('C10-MUST-localset', 'add_to_file_restricted stores the extended file set of an element exactly over the true edge of "parent is splittable" or of the `local` flag returned by file_membership() (an element that already carries its own set must gain the file too, '
+           'otherwise a child that is added to the file is attributed to a file its parent is not in); each of the two edges alone reaches the store')
+    ar = P.get('Element::add_to_file_restricted')
+    stores = [pos for pos, s_ in ar.iter_stmts() if s_['k'] == 'assign' and ends_in_field(s_['dst'], 'ElementRaw.file_membership')]
+    fm = calls(ar, r'impl Element>::file_membership$')
+    sp = calls(ar, r'Option::<T>::is_none_or$')
+    if len(stores) != 1 or len(fm) != 1 or len(sp) != 1:
+        C.anchor_missing('C10-MUST-localset', 'add_to_file_restricted: membership store / file_membership() / splittable test')
+    else:
+        S = stores[0]
+        g_split = true_edge(ar, sp[0])
+        # the `local` flag: a bool copied from field .0 of the (unwrapped) file_membership() result
+        flag_locals = set()
+        res = {ar.blocks[fm[0][0]]['term']['dst']['l']}
+        for pos, t in ar.iter_calls():
+            if call_matches(t, r'Result::<T, E>::(unwrap_or|unwrap_or_default|unwrap|expect|unwrap_or_else)$') and t['args'] and is_local_op(t['args'][0]) and t['args'][0]['l'] in res:
+                res.add(t['dst']['l'])
+        for pos, s_ in ar.iter_stmts():
+            if s_['k'] == 'assign' and s_['rv']['k'] == 'use' and is_local_op(s_['rv']['o']) and s_['rv']['o']['l'] in res and s_['rv']['o']['p'] and s_['rv']['o']['p'][-1] == '.0' and (ar.local_ty(s_['dst']['l']) or '') == 'bool':
+                flag_locals.add(s_['dst']['l'])
+        from flow import forward_taint
+        fl = forward_taint(ar, flag_locals) if flag_locals else set()
+        g_local = None
+        for pos, tt in ar.iter_terms():
+            if tt['k'] == 'switch' and is_local_op(tt['d']) and tt['d']['l'] in fl and set(dict(tt['ts']).keys()) == {'0'}:
+                g_local = (pos[0], tt['else'], dict(tt['ts'])['0'])
+        ok = g_split is not None and g_local is not None
+        if ok:
+            r1 = S in ar.reach_from((g_split[1], 0), include_start=True)
+            r2 = S in ar.reach_from((g_local[1], 0), include_start=True)
+            nec = must_pass(ar, (0, 0), [S], through=(), avoid_edges={(g_split[0], g_split[1]), (g_local[0], g_local[1])})
+            ok = r1 and r2 and nec
+        C.check(ok, 'C10-MUST-localset', 'add_to_file_restricted|store-if-parent-splittable-or-own-set', 'add_to_file_restricted no longer extends the file set of an element that already has its own set when its parent is not splittable (the `local` flag of file_membership() is ignored): '
+                'a child added to a file ends up attributed to a file its parent is not in and is missing from that file\'s text', ar.where(S), sample={'fn': 'add_to_file_restricted', 'guards': ['parent splittable', 'local flag of file_membership()']})
+    C.rule('C10-MUST-inherit', 'when a loaded file is merged, a model-side element that has its own file set hands THAT set (not the wider set of its parent) down to its children (shared with C09-MUST-restrict)')
+    from c09 import own_set_rule
+    own_set_rule(C, P, 'C10-MUST-inherit')
     # ---------------- MUST-rollback ----------------
     lb = P.get('AutosarModel::load_buffer_internal')
     mf = calls(lb, r'AutosarModel>::merge_file_data$')
